@@ -18,10 +18,23 @@ def noise(rnd, n=None, inert=True):
     return bytes(rnd.choice([0xD3, 0xB5, 0x24, 0x62, 0x47, 0x00, 0x01, rnd.randrange(256)]) for _ in range(n))
 
 
-def damage(rnd, frame, kind=None):
-    """flip 1-3 bits or a burst <= 24 bits somewhere behind the 3-byte header"""
+def damage(rnd, frame, kind=None, where=None):
+    """flip 1-3 bits or a burst <= 24 bits somewhere behind the 3-byte header
+    where: None (anywhere behind the header) | "crc" (checksum bytes only) | "payload" """
     kind = kind or rnd.choice(["bit1", "bit2", "bit3", "burst"])
     b = bytearray(frame)
+    if where == "crc" or (where == "payload" and len(b) > 6):
+        lo, hi = ((len(b) - 3) * 8, len(b) * 8) if where == "crc" else (24, (len(b) - 3) * 8)
+        n = int(kind[3]) if kind.startswith("bit") else rnd.randint(2, 12)
+        if kind.startswith("bit"):
+            pos = rnd.sample(range(lo, hi), min(n, hi - lo))
+        else:
+            n = min(n, hi - lo)
+            st = rnd.randrange(lo, hi - n + 1)
+            pos = sorted({st, st + n - 1} | {st + i for i in range(n) if rnd.random() < 0.5})
+        for p in pos:
+            b[p // 8] ^= 0x80 >> (p % 8)
+        return bytes(b)
     nbits = (len(b) - 3) * 8
     if kind == "burst":
         ln = rnd.randint(2, 24)
@@ -60,13 +73,16 @@ def mixed_stream(rnd, payloads, n_items=12, well_formed=True, dmg=0.0, crlf_only
     payloads: pool of payload byte strings (real message types)
     """
     items = []
+    used = []
     for _ in range(n_items):
         r = rnd.random()
         if r < 0.55:
-            pl = rnd.choice(payloads)
+            # sometimes repeat an earlier payload verbatim (stations repeat 1005/1033/1230 ...)
+            pl = rnd.choice(used) if used and rnd.random() < 0.3 else rnd.choice(payloads)
+            used.append(pl)
             fr = frame_of(pl)
             if dmg and rnd.random() < dmg:
-                items.append(("damaged", damage(rnd, fr), pl, True))
+                items.append(("damaged", damage(rnd, fr, where=rnd.choice([None, None, "crc", "payload"])), pl, True))
             else:
                 items.append(("frame", fr, pl, False))
         elif r < 0.65:
